@@ -36,6 +36,21 @@ CHECKS = {
    "For every permutation of every conflict-free subset (k<=3 quick, k<=4 thorough): operation set of the document == published specs whose range contains v; unpublished ones still served by lookup_route; every $ref resolves; write twice / rebuild / every permutation give identical bytes.",
    "trusted: RefRange, serde_json as JSON parser; schema *content* is C07/C08's business",
    "DESIGN.md section 4/C06"),
+ "C12": ("E2", "exploration",
+   "bounded-exhaustive enumeration of response values: full product of body field value lists x response kinds; declared-header values x explicit header operations x 4 interleaved header-struct types; redirect locations over all Latin-1 code points; on the real HttpResponse::to_result()",
+   "Complete enumeration of the stated value domains through the real to_result(): status, content-type, body parses back bit-exactly, declared/explicit header override rule, illegal header values and locations refused, never mangled.",
+   "trusted: http::HeaderValue::from_bytes as the definition of a legal header value (cross-checked: CR/LF/NUL always illegal); serde_json as parser",
+   "DESIGN.md section 4/C12"),
+ "C13": ("E2+E3", "exploration",
+   "complete enumeration: all 65536 u16 through every status-type conversion; every public HttpError constructor x every representable status x error-code x message x attached-header set through the real into_response; live request-id script",
+   "Exhaustive over u16 for the 400-599 boundary; exhaustive over constructors x 100/200 representable codes; response status/body/request-id/attached headers/non-leak checked on each.",
+   "trusted: serde_json; attached header names disjoint from those the framework sets",
+   "DESIGN.md section 4/C13"),
+ "C14": ("E2+E3", "exploration",
+   "bounded-exhaustive enumeration: token round-trip for 7 character classes x every length across the 512 bound; every single-byte substitution/deletion/insertion/truncation of 3 valid tokens; structured corruptions; crafted over-long tokens; token-wins over every subset of scan parameters; limits live",
+   "Complete enumeration of the stated token domains on the real ResultsPage::new / PaginationParams decoding, compared with RefToken (own base64 decoder + serde_json).",
+   "trusted: serde_json inside RefToken; duplicate-key tokens unclassified",
+   "DESIGN.md section 4/C14"),
 }
 
 NOT_YET = {
@@ -75,7 +90,7 @@ def main():
       },
       "engines": [
         {"name": "E1", "path": "harness/src/e1.rs + harness/src/bin/e1.rs", "serves_properties": ["C01","C02","C04","C06"], "kind_free_text": "stateless explicit exploration of registration histories on the real ApiDescription/HttpRouter"},
-        {"name": "E2", "path": "harness/src/bin/c03.rs c05.rs ...", "serves_properties": ["C03","C05"], "kind_free_text": "bounded-exhaustive input enumeration against reference functions, on the real public functions"},
+        {"name": "E2", "path": "harness/src/bin/c03.rs c05.rs ...", "serves_properties": ["C03","C05","C12","C13","C14"], "kind_free_text": "bounded-exhaustive input enumeration against reference functions, on the real public functions"},
       ],
       "checks": checks,
       "not_applicable": na,
